@@ -18,7 +18,7 @@ CHECKS = {
                 "recorded and TLC validates the trace against spec/z/TraceTree.tla (observer = abstract map; page "
                 "structure compared with the model).",
         "design_ref": "DESIGN.md section 6 (C10), 4.4, Appendix A.2",
-        "note": "Design explored exhaustively only for MK = 4 and <= 6 operations over 6 key ids (quick) / 10 operations over 8 key ids and 7 operations over 6 key ids with three value ids (thorough), beyond that by TLC simulation with the invariants on; real-code "
+        "note": "Design explored exhaustively only for MK = 4 and <= 7 operations over 7 key ids (quick) / 10 operations over 8 key ids and 7 operations over 6 key ids with three value ids (thorough), beyond that by TLC simulation with the invariants on; real-code "
                 "verdicts cover the key ids of each trace's universe (<= 600 ids, 40000 in fill runs), not all 2^64 keys. "
                 "Known finding F2 (stale max key after DeleteBelow) is reported as KNOWN-FINDING while open.",
         "technique": _TECH,
